@@ -1,5 +1,6 @@
 """C02 - loops and branches mean the same wherever nested (C02.R1-R4)."""
 from .. import emit, flow, mir, templates
+import json
 import re
 
 from ..core import CheckError
@@ -26,7 +27,10 @@ EXPLANATION = (
     "RESUME NEXT after an error in the last statement of a branch leaves the construct like the "
     "equivalent IF chain does (shared with C05.R2); (R8) no user code that can overwrite a register "
     "is emitted between the instruction that sets it and the instruction that reads it (dataflow over "
-    "the emitted code of each template; register reads / writes derived from the VM; shared with C15.R8).")
+    "the emitted code of each template; register reads / writes derived from the VM; shared with C15.R8); (R9) in the parser every "
+    "statement list comes from a repetition combinator: a list built from a fixed number of statements "
+    "(array literal, once) is tabled with the reason nothing can follow it, otherwise the rest of a "
+    "colon-separated single-line body falls out of the construct.")
 NOT_DECIDED = [
     "the listed rewrite equivalences themselves (FOR = WHILE, SELECT = IF chain ...): relational "
     "properties of run-time behaviour",
@@ -363,6 +367,52 @@ def r6_template_reachability(ctx, rule="C02.R6"):
     ctx.require(rule, 20)
 
 
+FIXED_STATEMENT_LISTS = {
+    # parser function -> why a list of a fixed number of statements is the whole list there
+    "rusty_parser::core::if_block::single_line_comment_p":
+        "a comment runs to the end of the line, so nothing can follow it inside the single-line IF",
+}
+_STMT_ELEM = "rusty_common::Positioned<core::statement::Statement>"
+
+
+def r9_statement_lists_are_repetitions(ctx, rule="C02.R9"):
+    """`single-line IF as block IF` (and every other body): the body of a construct is a LIST of
+    statements. A parser that builds its `Statements` from an array literal (`vec![s]`,
+    `Vec::from([s])`, `iter::once(s)`) accepts a fixed number of statements, so the rest of a
+    colon-separated body silently falls out of the construct. Every such construction in the parser
+    crate must be tabled with the reason the fixed length is the whole list."""
+    prog = ctx.prog
+    n = 0
+    seen = set()
+    for fn in sorted(prog.fns.values(), key=lambda f: f.id):
+        if fn.crate != "rusty_parser":
+            continue
+        for _b, t in fn.body.calls():
+            cp = t.get("cpath") or ""
+            st = t.get("self_ty") or ""
+            fixed = (cp.endswith("Box::<T>::new_uninit") or cp.endswith("Box::<T>::new")) and \
+                re.match(r"^\[%s; \d+\]$" % re.escape(_STMT_ELEM), st)
+            once = cp in ("std::iter::once", "core::iter::once") and _STMT_ELEM in json.dumps(t.get("targs") or st)
+            if not (fixed or once):
+                continue
+            owner = prog.enclosing_fn(fn) or fn
+            if owner.id in seen:
+                continue
+            seen.add(owner.id)
+            n += 1
+            why = FIXED_STATEMENT_LISTS.get(owner.id)
+            ctx.decide(why is not None, rule, "%s:%s" % (rule, owner.id.split("::", 1)[1]), fn.loc,
+                       "fixed-length statement list, tabled: %s" % why,
+                       "%s builds its statement list from a fixed number of statements (%s) instead of a "
+                       "repetition: in `IF c THEN a ELSE b : d` (or any body parsed here) the statements "
+                       "after the first fall out of the construct and run unconditionally, so the "
+                       "single-line spelling no longer equals the block spelling" % (owner.path, st or cp))
+    for k in FIXED_STATEMENT_LISTS:
+        if k not in seen:
+            raise CheckError("%s: tabled fixed statement list %s no longer exists - the detector may be blind" % (rule, k))
+    ctx.require(rule, 1)
+
+
 def _site(it):
     """line-independent site id of an emission: the source text of the emitted operand is not in the
     facts, so sites are numbered by source order inside their function."""
@@ -402,3 +452,4 @@ def run(ctx):
     from . import c05
     c05.r2_mark_after_block(ctx, "C02.R7")
     c15.r8_register_liveness(ctx, "C02.R8")
+    r9_statement_lists_are_repetitions(ctx)
